@@ -613,6 +613,10 @@ class RelativeJSONPointer:
                 raise RelativeJSONPointerIndexError(
                     f"index offset out of range {new_index}"
                 )
+            if new_index > _pointer.max_int_index:
+                # No pointer can hold such an index (and an integer of more
+                # digits than `str()` converts could not even be printed).
+                raise RelativeJSONPointerIndexError("index offset out of range")
             parts[-1] = int(parts[-1]) + self.index
 
         # Pointer or index/property
